@@ -45,6 +45,14 @@ def has_sym(*xs):
 class SymArray(np.ndarray):
     """dtype=object ndarray whose astype() never leaves the object domain for numeric targets."""
 
+    def __array_wrap__(self, arr, context=None, return_scalar=False):
+        # reductions of ndarray subclasses come back as 0-d arrays; unwrap them like plain ndarrays do
+        if arr.ndim == 0:
+            return arr[()]
+        if isinstance(arr, np.ndarray) and not isinstance(arr, SymArray) and arr.dtype == object:
+            return arr.view(SymArray)
+        return arr
+
     def astype(self, dtype, *args, **kwargs):
         if self.dtype != object:
             return np.ndarray.astype(self, dtype, *args, **kwargs)
@@ -111,8 +119,22 @@ def _sa_min(self, axis=None, out=None, **kw):
     return np.ndarray.min(self, axis=axis, out=out, **kw)
 
 
+def _sa_mean(self, axis=None, dtype=None, out=None, **kw):
+    if self.dtype == object and self.size == 0 and out is None:
+        # numpy float semantics: mean of an empty slice is nan (object arithmetic would raise ZeroDivisionError)
+        if axis is None:
+            return float('nan')
+        shp = tuple(s for k, s in enumerate(self.shape) if k != (axis % self.ndim))
+        return obj_full(shp, float('nan'))
+    r = np.ndarray.mean(self, axis=axis, dtype=dtype, out=out, **kw)
+    if isinstance(r, np.ndarray) and r.ndim == 0:
+        r = r[()]
+    return r
+
+
 SymArray.max = _sa_max
 SymArray.min = _sa_min
+SymArray.mean = _sa_mean
 
 
 def obj_full(shape, value):
@@ -365,6 +387,18 @@ class NPProxy(object):
         for k in range(n):
             out[k] = start + k
         return out.view(SymArray)
+
+    def average(self, a, axis=None, weights=None, **kw):
+        a_ = np.asarray(a)
+        if a_.dtype == object and a_.size == 0 and weights is None:
+            return _sa_mean(a_.view(SymArray), axis=axis)
+        return real_np.average(a, axis=axis, weights=weights, **kw)
+
+    def mean(self, a, axis=None, **kw):
+        a_ = np.asarray(a) if not isinstance(a, np.ndarray) else a
+        if a_.dtype == object and a_.size == 0:
+            return _sa_mean(a_.view(SymArray), axis=axis)
+        return real_np.mean(a, axis=axis, **kw)
 
     def median(self, a, *args, **kw):
         a_ = np.asarray(a)
